@@ -2,18 +2,21 @@
   Spil.Props.C11b — C11, the language-level half: "FindInPaths over a file tree and FindInList
   over the corresponding list of Sids return the same Sids".
 
+  The model is the REPAIRED `star_search_simple` (D25): after the type test a found Sid is kept
+  only if `re.match(glob2re(str(search)), str(sid))`.  (Before the repair soundness was false on
+  the shipped configuration: `C11Ex.c11_sound_regression` keeps the witness.)
+
   (1) `c11_star_one` / `c11_star_list`: EXACT characterisation of `FindInPaths.star_search_simple`
-      in terms of `glob.glob` on the tree and `Sid(path=…)`;
+      in terms of `glob.glob` on the tree, `Sid(path=…)` and the string test;
   (2) `c11_pattern_matches` / `c11_glob_mem`: the glob pattern rendered from a search Sid matches,
       component by component, the path rendered from every entity it globs field by field;
-  (3) `c11_complete`, `c11_list_subset_paths`: hence every existing, round-tripping entity that the
+  (3) `c11_complete`, `c11_list_subset_paths`: every existing, round-tripping entity that the
       list search finds for a whole-segment star search is found by the path search;
-  (4) soundness (FindInPaths ⊆ FindInList) is FALSE in general: see `Spil/Props/C11bExamples.lean`
-      (`c11_sound_counterexample`, on the shipped configuration).  What holds: every found Sid owns
-      an existing path that the pattern globs as a whole string (`c11_sound_paths`); a search
-      without wildcard finds at most the owner of its own path (`c11_sound_concrete`); the value of
-      a key that occupies a whole directory component of the path template is globbed by the
-      search value (`c11_sound_pinned_partial`).
+  (4) `c11_sound`, `c11_sound_fields`: every Sid the path search returns is glob-matched by the
+      search string (relation of C08), hence field-wise globbed for a whole-segment star search;
+  (5) `c11_paths_eq_list_whole`: FindInPaths = FindInList (restricted to the searched type) when the
+      tree holds exactly the entities plus junk; `c11_local_eq_server`: two configurations / trees
+      holding the same entities answer alike.
 -/
 import Spil.Spec.Glob
 import Spil.Spec.PathWF
@@ -50,28 +53,44 @@ theorem c11_hit_inj (config : Option Str) (p q : Str) (x : Sid)
   injection h2 with h2
   injection h2
 
+/-- `re.match(glob2re(pat), item)` answers (does not leave the model) for a pattern without `[`,
+    and then decides the glob relation of C08 -/
+theorem c11_globMatch_iff (e : Env) (pat item : Str) (hb : '[' ∉ pat) :
+    Find.globMatch e pat item = .ok true ↔ Glob pat item := by
+  rw [globMatch_ok e pat item hb, ← C08.c08_glob2re e pat item hb]
+  constructor
+  · intro h; injection h
+  · intro h; rw [h]
+
 /-- star search over a LIST of typed search Sids: the result is the list of second components of
     a list `hs` of (path, Sid) pairs that lists no path and no Sid twice and contains exactly the
-    hits of the searches: `p` is matched by the glob pattern of some search `s` and resolves to a
-    typed Sid of the type of `s`.  (The `searched` / `found` bookkeeping of the code never loses a
-    hit: a path already yielded for an earlier search is not yielded again, and it resolves to the
-    same Sid.) -/
+    hits of the searches: `p` is matched by the glob pattern of some search `s`, resolves to a
+    typed Sid of the type of `s`, and the string of `s` matches the string of that Sid.
+    Hypotheses: `hsp` no search raises in `sid.path()`; `hgm` no search string contains `[`
+    (`glob2re` is out of model then: K2); `hstr` searches that render the same (type, pattern) pair
+    have the same string — the code globs such a pair only once, for the FIRST of them, while the
+    repaired filter depends on the string (needed: `C11Ex.c11_sameStr_needed`; vacuous for one search; true for the searches
+    `Sid(...)` produces, whose string is determined by type and fields); `htot` `Sid(path=…)`
+    raises on no node (C06: `c11_total_of_wf`). -/
 theorem c11_star_list (w : World) (config : Option Str) (searches : List Sid)
     (hsp : ∀ s ∈ searches, ∃ po, d.ctx.sidPath config s = .ok po)
+    (hgm : ∀ s ∈ searches, '[' ∉ s.string) (hstr : SameStr d config searches)
     (htot : ∀ p ∈ w.nodes.map (·.1), ∃ x, d.ctx.sidOfPath p config = .ok x) :
     ∃ hs : List (Str × Sid),
       d.pathsStarSids w config searches = .ok (hs.map (·.2)) ∧
       (hs.map (·.1)).Nodup ∧ (hs.map (·.2)).Nodup ∧
       ∀ p x, (p, x) ∈ hs ↔ ∃ s ∈ searches, p ∈ w.glob (patOf d config s) ∧
-        d.ctx.sidOfPath p config = .ok x ∧ x.typed = true ∧ x.type = s.type := by
+        d.ctx.sidOfPath p config = .ok x ∧ x.typed = true ∧ x.type = s.type ∧
+        Find.globMatch d.ctx.env s.string x.string = .ok true := by
   have htot' : ∀ p ∈ w.nodes.map (·.1), ∀ e, d.ctx.sidOfPath p config = .error e → e = .spil := by
     intro p hp e he
     obtain ⟨x, hx⟩ := htot p hp
     rw [hx] at he; cases he
-  obtain ⟨hs, h1, h2, h3⟩ := pathsStarGo_pairs d w config htot' searches hsp [] []
+  obtain ⟨hs, h1, h2, h3⟩ := pathsStarGo_pairs d w config htot' searches hsp hgm hstr [] []
     (fun tp htp => by simp at htp)
   have h3' : ∀ p x, (p, x) ∈ hs ↔ ∃ s ∈ searches, p ∈ w.glob (patOf d config s) ∧
-      d.ctx.sidOfPath p config = .ok x ∧ x.typed = true ∧ x.type = s.type := by
+      d.ctx.sidOfPath p config = .ok x ∧ x.typed = true ∧ x.type = s.type ∧
+      Find.globMatch d.ctx.env s.string x.string = .ok true := by
     intro p x
     rw [h3]
     constructor
@@ -85,14 +104,17 @@ theorem c11_star_list (w : World) (config : Option Str) (searches : List Sid)
   exact c11_hit_inj d config p q x hp1 hq1 hp2
 
 /-- the same at the level of Sids: the result is duplicate-free and is the UNION over the
-    searches of the typed Sids of the searched type whose path the pattern of the search globs -/
+    searches of the typed Sids of the searched type whose path the pattern of the search globs and
+    whose string the search string matches -/
 theorem c11_star_list_mem (w : World) (config : Option Str) (searches : List Sid)
     (hsp : ∀ s ∈ searches, ∃ po, d.ctx.sidPath config s = .ok po)
+    (hgm : ∀ s ∈ searches, '[' ∉ s.string) (hstr : SameStr d config searches)
     (htot : ∀ p ∈ w.nodes.map (·.1), ∃ x, d.ctx.sidOfPath p config = .ok x) :
     ∃ r, d.pathsStarSids w config searches = .ok r ∧ r.Nodup ∧
       ∀ x, x ∈ r ↔ ∃ s ∈ searches, ∃ p ∈ w.glob (patOf d config s),
-        d.ctx.sidOfPath p config = .ok x ∧ x.typed = true ∧ x.type = s.type := by
-  obtain ⟨hs, h1, _, h3, h4⟩ := c11_star_list d w config searches hsp htot
+        d.ctx.sidOfPath p config = .ok x ∧ x.typed = true ∧ x.type = s.type ∧
+        Find.globMatch d.ctx.env s.string x.string = .ok true := by
+  obtain ⟨hs, h1, _, h3, h4⟩ := c11_star_list d w config searches hsp hgm hstr htot
   refine ⟨_, h1, h3, fun x => ?_⟩
   rw [List.mem_map]
   constructor
@@ -102,16 +124,21 @@ theorem c11_star_list_mem (w : World) (config : Option Str) (searches : List Sid
   · rintro ⟨s, hs', p, hg, hh⟩
     exact ⟨(p, x), (h4 p x).2 ⟨s, hs', hg, hh⟩, rfl⟩
 
-/-- star search for ONE typed search Sid with a path: it succeeds, yields no Sid twice, and yields
-    exactly the typed Sids of the searched type built from the paths `glob.glob(pattern)` returns -/
+/-- star search for ONE typed search Sid with a path and without `[` in its string: it succeeds,
+    yields no Sid twice, and yields exactly the typed Sids of the searched type built from the
+    paths `glob.glob(pattern)` returns whose string the search string matches -/
 theorem c11_star_one (w : World) (config : Option Str) (s : Sid) (pat : Str)
-    (hs : d.ctx.sidPath config s = .ok (some pat))
+    (hs : d.ctx.sidPath config s = .ok (some pat)) (hgm : '[' ∉ s.string)
     (htot : ∀ p ∈ w.nodes.map (·.1), ∃ x, d.ctx.sidOfPath p config = .ok x) :
     ∃ r, d.pathsStarSids w config [s] = .ok r ∧ r.Nodup ∧
       ∀ x, x ∈ r ↔ ∃ p ∈ w.glob pat,
-        d.ctx.sidOfPath p config = .ok x ∧ x.typed = true ∧ x.type = s.type := by
+        d.ctx.sidOfPath p config = .ok x ∧ x.typed = true ∧ x.type = s.type ∧
+        Find.globMatch d.ctx.env s.string x.string = .ok true := by
   obtain ⟨r, h1, h2, h3⟩ := c11_star_list_mem d w config [s]
-    (fun s' hs' => by simp only [List.mem_singleton] at hs'; subst hs'; exact ⟨_, hs⟩) htot
+    (fun s' hs' => by simp only [List.mem_singleton] at hs'; subst hs'; exact ⟨_, hs⟩)
+    (fun s' hs' => by simp only [List.mem_singleton] at hs'; subst hs'; exact hgm)
+    (fun a ha b hb _ _ => by
+      simp only [List.mem_singleton] at ha hb; subst ha; subst hb; rfl) htot
   refine ⟨r, h1, h2, fun x => ?_⟩
   rw [h3]
   constructor
@@ -224,46 +251,6 @@ theorem c11_entityValsOk (c : Ctx) (config : Option Str) (e : Sid) (p : Str)
 
 /-! ### (3) whatever the list search finds among the existing entities, the path search finds -/
 
-/-- COMPLETENESS: every existing entity `e` (its path `p` is a node of the tree) that round-trips
-    (`Sid(path=p) = e`: property C05), and is globbed field by field by the typed search Sid `s`,
-    is found by the path search for `s` -/
-theorem c11_complete (w : World) (config : Option Str) (s e : Sid) (pat p : Str) (r : List Sid)
-    (hs : d.ctx.sidPath config s = .ok (some pat))
-    (hex : w.pathExists p = true) (hrt : d.ctx.sidOfPath p config = .ok e) (hty : e.typed = true)
-    (hg : SidGlob s e)
-    (hfix : ∀ pc, d.ctx.cfg.pathConf? config = some pc → starFixed pc = true)
-    (hvals : entityValsOk d.ctx config e = true) (hb : '[' ∉ pat)
-    (htot : ∀ p ∈ w.nodes.map (·.1), ∃ x, d.ctx.sidOfPath p config = .ok x)
-    (hr : d.pathsStarSids w config [s] = .ok r) : e ∈ r := by
-  obtain ⟨r', h1, _, h3⟩ := c11_star_one d w config s pat hs htot
-  rw [hr] at h1
-  injection h1 with h1
-  subst h1
-  rw [h3]
-  have he := C06.c06_owner d.ctx p config e hrt hty
-  exact ⟨p, c11_glob_mem d.ctx w config s e pat p hs he hg hfix hvals hb hex, hrt, hty, hg.1.symm⟩
-
-/-- the same for a LIST of search Sids: an entity globbed by ONE of them is found -/
-theorem c11_complete_list (w : World) (config : Option Str) (searches : List Sid) (s e : Sid)
-    (pat p : Str) (r : List Sid)
-    (hsp : ∀ s ∈ searches, ∃ po, d.ctx.sidPath config s = .ok po)
-    (hmem : s ∈ searches) (hs : d.ctx.sidPath config s = .ok (some pat))
-    (hex : w.pathExists p = true) (hrt : d.ctx.sidOfPath p config = .ok e) (hty : e.typed = true)
-    (hg : SidGlob s e)
-    (hfix : ∀ pc, d.ctx.cfg.pathConf? config = some pc → starFixed pc = true)
-    (hvals : entityValsOk d.ctx config e = true) (hb : '[' ∉ pat)
-    (htot : ∀ p ∈ w.nodes.map (·.1), ∃ x, d.ctx.sidOfPath p config = .ok x)
-    (hr : d.pathsStarSids w config searches = .ok r) : e ∈ r := by
-  obtain ⟨r', h1, _, h3⟩ := c11_star_list_mem d w config searches hsp htot
-  rw [hr] at h1
-  injection h1 with h1
-  subst h1
-  rw [h3]
-  have he := C06.c06_owner d.ctx p config e hrt hty
-  refine ⟨s, hmem, p, ?_, hrt, hty, hg.1.symm⟩
-  rw [patOf_some d config s pat hs]
-  exact c11_glob_mem d.ctx w config s e pat p hs he hg hfix hvals hb hex
-
 /-- fields ⇒ strings: a field-wise glob between two well-typed Sids is the glob relation of C08
     between their strings, i.e. the list search for `s.string` matches `e.string` -/
 theorem c11_string_glob (env : Env) (ts : List (Str × Template)) (s e : Sid)
@@ -276,6 +263,55 @@ theorem c11_fields_glob (env : Env) (ts : List (Str × Template)) (s e : Sid)
     (hs : wellTyped env ts s) (he : wellTyped env ts e) (hty : s.type = e.type)
     (hw : wholeStar s.string) (hb : '[' ∉ s.string) (hg : Glob s.string e.string) : SidGlob s e :=
   sidGlob_of_string_glob env ts s e hs he hty hw hb hg
+
+/-- COMPLETENESS: every existing entity `e` (its path `p` is a node of the tree) that round-trips
+    (`Sid(path=p) = e`: property C05, `C05.c05_roundtrip`), and is globbed field by field by the
+    typed search Sid `s`, is found by the path search for `s`.  (`hws`, `hwe`, `hbs` serve the
+    repaired string test: field-wise glob of well-typed Sids ⇒ glob of their strings.) -/
+theorem c11_complete (w : World) (config : Option Str) (s e : Sid) (pat p : Str) (r : List Sid)
+    (hs : d.ctx.sidPath config s = .ok (some pat))
+    (hws : wellTyped d.ctx.env d.ctx.cfg.sid.templates s)
+    (hwe : wellTyped d.ctx.env d.ctx.cfg.sid.templates e) (hbs : '[' ∉ s.string)
+    (hex : w.pathExists p = true) (hrt : d.ctx.sidOfPath p config = .ok e) (hty : e.typed = true)
+    (hg : SidGlob s e)
+    (hfix : ∀ pc, d.ctx.cfg.pathConf? config = some pc → starFixed pc = true)
+    (hvals : entityValsOk d.ctx config e = true) (hb : '[' ∉ pat)
+    (htot : ∀ p ∈ w.nodes.map (·.1), ∃ x, d.ctx.sidOfPath p config = .ok x)
+    (hr : d.pathsStarSids w config [s] = .ok r) : e ∈ r := by
+  obtain ⟨r', h1, _, h3⟩ := c11_star_one d w config s pat hs hbs htot
+  rw [hr] at h1
+  injection h1 with h1
+  subst h1
+  rw [h3]
+  have he := C06.c06_owner d.ctx p config e hrt hty
+  exact ⟨p, c11_glob_mem d.ctx w config s e pat p hs he hg hfix hvals hb hex, hrt, hty, hg.1.symm,
+    (c11_globMatch_iff _ _ _ hbs).2 (c11_string_glob _ _ s e hws hwe hg hbs)⟩
+
+/-- the same for a LIST of search Sids: an entity globbed by ONE of them is found -/
+theorem c11_complete_list (w : World) (config : Option Str) (searches : List Sid) (s e : Sid)
+    (pat p : Str) (r : List Sid)
+    (hsp : ∀ s ∈ searches, ∃ po, d.ctx.sidPath config s = .ok po)
+    (hgm : ∀ s ∈ searches, '[' ∉ s.string) (hstr : SameStr d config searches)
+    (hmem : s ∈ searches) (hs : d.ctx.sidPath config s = .ok (some pat))
+    (hws : wellTyped d.ctx.env d.ctx.cfg.sid.templates s)
+    (hwe : wellTyped d.ctx.env d.ctx.cfg.sid.templates e)
+    (hex : w.pathExists p = true) (hrt : d.ctx.sidOfPath p config = .ok e) (hty : e.typed = true)
+    (hg : SidGlob s e)
+    (hfix : ∀ pc, d.ctx.cfg.pathConf? config = some pc → starFixed pc = true)
+    (hvals : entityValsOk d.ctx config e = true) (hb : '[' ∉ pat)
+    (htot : ∀ p ∈ w.nodes.map (·.1), ∃ x, d.ctx.sidOfPath p config = .ok x)
+    (hr : d.pathsStarSids w config searches = .ok r) : e ∈ r := by
+  obtain ⟨r', h1, _, h3⟩ := c11_star_list_mem d w config searches hsp hgm hstr htot
+  rw [hr] at h1
+  injection h1 with h1
+  subst h1
+  rw [h3]
+  have he := C06.c06_owner d.ctx p config e hrt hty
+  have hbs := hgm s hmem
+  refine ⟨s, hmem, p, ?_, hrt, hty, hg.1.symm,
+    (c11_globMatch_iff _ _ _ hbs).2 (c11_string_glob _ _ s e hws hwe hg hbs)⟩
+  rw [patOf_some d config s pat hs]
+  exact c11_glob_mem d.ctx w config s e pat p hs he hg hfix hvals hb hex
 
 /-- FindInList ⊆ FindInPaths on the existing entities: let `ents` be entities that exist in the
     tree and round-trip, `s` a well-typed whole-segment star search with a path.  Every entity of
@@ -302,7 +338,7 @@ theorem c11_list_subset_paths (w : World) (config : Option Str) (s : Sid) (pat :
   simp only [List.mem_singleton] at hq
   subst hq
   have hg := c11_fields_glob d.ctx.env _ s e hws hwe hty.symm hw hbs hglob
-  exact c11_complete d w config s e pat p r hs hex hrt htyped hg hfix hvals hb htot hr
+  exact c11_complete d w config s e pat p r hs hws hwe hbs hex hrt htyped hg hfix hvals hb htot hr
 
 /-- and conversely every entity that `s` globs field by field IS returned by the list search -/
 theorem c11_list_finds (env : Env) (ts : List (Str × Template)) (s e : Sid) (l found : List Str)
@@ -313,46 +349,77 @@ theorem c11_list_finds (env : Env) (ts : List (Str × Template)) (s e : Sid) (l 
     (fun q hq => by simp only [List.mem_singleton] at hq; subst hq; exact hb) found hl
   exact (h e.string).2 ⟨hmem, s.string, by simp, c11_string_glob env ts s e hs he hg hb⟩
 
-/-! ### (4) soundness: what holds -/
+/-! ### (4) soundness (true since the repair D25) -/
 
-/-- every Sid the path search yields is typed with the searched type and OWNS (C06) an existing
-    path that the rendered pattern globs as a whole string (relation of C08) -/
+/-- SOUNDNESS: every Sid the path search yields is typed with the searched type, OWNS (C06) an
+    existing path that the rendered pattern globs as a whole string, and its STRING is globbed by
+    the search string (relation of C08) — i.e. FindInList over any list containing it finds it.
+    No totality hypothesis: this is a property of whatever the search returns. -/
+theorem c11_sound (w : World) (config : Option Str) (s : Sid) (r : List Sid) (hbs : '[' ∉ s.string)
+    (hr : d.pathsStarSids w config [s] = .ok r) :
+    ∀ x ∈ r, x.typed = true ∧ x.type = s.type ∧ Glob s.string x.string ∧
+      ∃ p, w.pathExists p = true ∧ d.ctx.sidOfPath p config = .ok x ∧
+        d.ctx.sidPath config x = .ok (some p) := by
+  intro x hx
+  obtain ⟨s', hs', h1, h2, h3, p, h4, h5⟩ := FSL.pathsStarGo_res d w config [s] [] [] r hr x hx
+  simp only [List.mem_singleton] at hs'
+  subst hs'
+  exact ⟨h1, h2.symm, (c11_globMatch_iff _ _ _ hbs).1 h3, p, h4, h5, C06.c06_owner d.ctx p config x h5 h1⟩
+
+/-- the same for a list of searches -/
+theorem c11_sound_list (w : World) (config : Option Str) (searches : List Sid) (r : List Sid)
+    (hgm : ∀ s ∈ searches, '[' ∉ s.string)
+    (hr : d.pathsStarSids w config searches = .ok r) :
+    ∀ x ∈ r, ∃ s ∈ searches, x.typed = true ∧ x.type = s.type ∧ Glob s.string x.string := by
+  intro x hx
+  obtain ⟨s, hs, h1, h2, h3, _⟩ := FSL.pathsStarGo_res d w config searches [] [] r hr x hx
+  exact ⟨s, hs, h1, h2.symm, (c11_globMatch_iff _ _ _ (hgm s hs)).1 h3⟩
+
+/-- field-level soundness for a whole-segment star search between well-typed Sids -/
+theorem c11_sound_fields (w : World) (config : Option Str) (s : Sid) (r : List Sid)
+    (hbs : '[' ∉ s.string) (hw : wholeStar s.string)
+    (hws : wellTyped d.ctx.env d.ctx.cfg.sid.templates s)
+    (hr : d.pathsStarSids w config [s] = .ok r) :
+    ∀ x ∈ r, wellTyped d.ctx.env d.ctx.cfg.sid.templates x → SidGlob s x := by
+  intro x hx hwx
+  obtain ⟨_, hty, hg, _⟩ := c11_sound d w config s r hbs hr x hx
+  exact c11_fields_glob _ _ s x hws hwx hty.symm hw hbs hg
+
+/-- every found Sid's path is globbed by the rendered pattern as a whole string -/
 theorem c11_sound_paths (w : World) (config : Option Str) (s : Sid) (pat : Str) (r : List Sid)
-    (hs : d.ctx.sidPath config s = .ok (some pat))
+    (hs : d.ctx.sidPath config s = .ok (some pat)) (hbs : '[' ∉ s.string)
     (htot : ∀ p ∈ w.nodes.map (·.1), ∃ x, d.ctx.sidOfPath p config = .ok x)
     (hr : d.pathsStarSids w config [s] = .ok r) :
     ∀ x ∈ r, x.typed = true ∧ x.type = s.type ∧ ∃ p, w.pathExists p = true ∧
       d.ctx.sidOfPath p config = .ok x ∧ d.ctx.sidPath config x = .ok (some p) ∧ Glob pat p := by
-  obtain ⟨r', h1, _, h3⟩ := c11_star_one d w config s pat hs htot
+  obtain ⟨r', h1, _, h3⟩ := c11_star_one d w config s pat hs hbs htot
   rw [hr] at h1
   injection h1 with h1
   subst h1
   intro x hx
-  obtain ⟨p, hp, hx1, hx2, hx3⟩ := (h3 x).1 hx
+  obtain ⟨p, hp, hx1, hx2, hx3, _⟩ := (h3 x).1 hx
   exact ⟨hx2, hx3, p, FSL.glob_mem w pat p hp, hx1, C06.c06_owner d.ctx p config x hx1 hx2,
     (glob_sound w pat p hp).2⟩
 
 /-- a search whose pattern has no wildcard finds at most the Sid built from that very path -/
 theorem c11_sound_concrete (w : World) (config : Option Str) (s : Sid) (pat : Str) (r : List Sid)
-    (hs : d.ctx.sidPath config s = .ok (some pat))
+    (hs : d.ctx.sidPath config s = .ok (some pat)) (hbs : '[' ∉ s.string)
     (htot : ∀ p ∈ w.nodes.map (·.1), ∃ x, d.ctx.sidOfPath p config = .ok x)
     (h1 : '*' ∉ pat) (h2 : '?' ∉ pat) (h3 : '[' ∉ pat)
     (hr : d.pathsStarSids w config [s] = .ok r) :
     ∀ x ∈ r, d.ctx.sidOfPath pat config = .ok x ∧ w.pathExists pat = true := by
   intro x hx
-  obtain ⟨_, _, p, hex, hrt, _, hg⟩ := c11_sound_paths d w config s pat r hs htot hr x hx
+  obtain ⟨_, _, p, hex, hrt, _, hg⟩ := c11_sound_paths d w config s pat r hs hbs htot hr x hx
   have := (C08.c08_literal pat p h1 h2 h3).1 hg
   subst this
   exact ⟨hrt, hex⟩
 
-/-- PARTIAL soundness (path values of pinned keys only; it does not conclude `SidGlob`, which is
-    false in general): if the texts rendered for the search Sid and for a found Sid by the
-    template of their type are already normalised (they ARE the pattern and the path), all path
-    values are '/'-free and the key `k` occupies a whole '/' component of the template, then the
-    search's path value of `k` globs the found Sid's path value of `k` — in particular they are
-    equal when the search value has no wildcard (`C08.c08_literal`).
-    Missing for full soundness: keys that only occur inside a file name (`{a}_{b}.{ext}`) — there
-    the statement is false, see `c11_sound_counterexample`. -/
+/-- PATH-level fact about pinned keys (independent of the repair; kept because it explains WHY the
+    unrepaired search was unsound exactly on the keys that only occur inside a file name): if the
+    texts rendered for the search Sid and for a Sid by the template of their type are already
+    normalised, all path values are '/'-free and the key `k` occupies a whole '/' component of
+    the template, then a whole-string glob between the two texts forces the search's path value of
+    `k` to glob the other's. -/
 theorem c11_sound_pinned_partial (pc : PathConf) (t : Template) (k : Str) (s x : Sid) (pat p : Str)
     (hpin : pinned k t = true)
     (hs : Template.format t (Ctx.pathData pc s.fields (Template.keys t)) = some pat)
@@ -363,5 +430,101 @@ theorem c11_sound_pinned_partial (pc : PathConf) (t : Template) (k : Str) (s x :
     ∃ vs vx, (Ctx.pathData pc s.fields (Template.keys t)).get k = some vs ∧
       (Ctx.pathData pc x.fields (Template.keys t)).get k = some vx ∧ Glob vs vx :=
   pinned_value t k _ _ pat p hpin hs hx hfs hfx hg
+
+/-! ### (5) FindInPaths = FindInList -/
+
+/-- the hypotheses on a tree `w` that "holds exactly the entities `ents` plus junk" for the
+    searched type `ty` under the path configuration `config`:
+    * every entity is well typed, typed, has admissible path values (`entityValsOk`), exists in
+      the tree and round-trips (C05: `C05.c05_roundtrip` derives it for `Admissible` Sids);
+    * `Sid(path=…)` raises on no node (C06: `c11_total_of_wf`);
+    * every node that resolves to a typed Sid of the searched type resolves to an entity. -/
+structure HoldsExactly (d : DCtx) (w : World) (config : Option Str) (ty : Str) (ents : List Sid) :
+    Prop where
+  ents_ok : ∀ e ∈ ents, wellTyped d.ctx.env d.ctx.cfg.sid.templates e ∧ e.typed = true ∧
+    entityValsOk d.ctx config e = true ∧
+    ∃ p, w.pathExists p = true ∧ d.ctx.sidOfPath p config = .ok e
+  total : ∀ p ∈ w.nodes.map (·.1), ∃ x, d.ctx.sidOfPath p config = .ok x
+  exact : ∀ p ∈ w.nodes.map (·.1), ∀ x, d.ctx.sidOfPath p config = .ok x → x.typed = true →
+    x.type = ty → x ∈ ents
+
+/-- EQUALITY (whole-segment star searches): on a tree that holds exactly the entities `ents` plus
+    junk, the path search and the list search for the typed search Sid `s` both succeed, neither
+    yields anything twice, and the Sids FindInPaths returns are exactly the entities of the
+    searched type whose string FindInList returns.  (FindInList itself ignores types — known
+    finding K6 — hence the restriction `e.type = s.type` on the right.)
+    `wholeStar s.string` is needed by the completeness direction only (⊇); soundness (⊆) holds for
+    every search string without `[`.  Missing for partial globs (`ha*`): the passage from the glob
+    between STRINGS to a relation between FIELD VALUES that survives the value mapping of
+    `dict_to_path` (a mapped key breaks it: `ha*` is not mapped, `hamlet ↦ HAMLET` is) and the
+    component-level conditions of `PurePosixPath` / hidden names for stars that may be empty. -/
+theorem c11_paths_eq_list_whole (w : World) (config : Option Str) (s : Sid) (pat : Str)
+    (ents : List Sid)
+    (hs : d.ctx.sidPath config s = .ok (some pat))
+    (hws : wellTyped d.ctx.env d.ctx.cfg.sid.templates s)
+    (hw : wholeStar s.string) (hbs : '[' ∉ s.string) (hb : '[' ∉ pat)
+    (hfix : ∀ pc, d.ctx.cfg.pathConf? config = some pc → starFixed pc = true)
+    (hw_ents : HoldsExactly d w config s.type ents) :
+    ∃ found r, Find.starSearch d.ctx.env ⟨ents.map (·.string), false⟩ [s.string] = .ok found ∧
+      d.pathsStarSids w config [s] = .ok r ∧ found.Nodup ∧ r.Nodup ∧
+      ∀ x, x ∈ r ↔ (x ∈ ents ∧ x.type = s.type ∧ x.string ∈ found) := by
+  obtain ⟨hents, htot, hexact⟩ := hw_ents
+  have hbl : ∀ q ∈ [s.string], '[' ∉ q := fun q hq => by
+    simp only [List.mem_singleton] at hq; subst hq; exact hbs
+  have hl := C08.c08_star_search d.ctx.env (ents.map (·.string)) [s.string] hbl
+  obtain ⟨hfn, hfm⟩ := C08.c08_star_search_mem d.ctx.env _ [s.string] hbl _ hl
+  obtain ⟨r, hr, hrn, hrm⟩ := c11_star_one d w config s pat hs hbs htot
+  refine ⟨_, r, hl, hr, hfn, hrn, fun x => ?_⟩
+  constructor
+  · intro hx
+    obtain ⟨p, hp, hx1, hx2, hx3, hx4⟩ := (hrm x).1 hx
+    have hxe : x ∈ ents := hexact p (glob_sound w pat p hp).1 x hx1 hx2 hx3
+    refine ⟨hxe, hx3, (hfm x.string).2 ⟨List.mem_map.2 ⟨x, hxe, rfl⟩, s.string, by simp, ?_⟩⟩
+    exact (c11_globMatch_iff _ _ _ hbs).1 hx4
+  · rintro ⟨hxe, hty, hf⟩
+    exact c11_list_subset_paths d w config s pat ents _ r hs hws hw hbs hb hfix htot hents hl hr
+      x hxe hty hf
+
+/-- the same as an equality up to order: the result of FindInPaths is a permutation of the
+    entities (listed once each) of the searched type whose string FindInList returns -/
+theorem c11_paths_perm_list_whole (w : World) (config : Option Str) (s : Sid) (pat : Str)
+    (ents : List Sid) (hnd : ents.Nodup)
+    (hs : d.ctx.sidPath config s = .ok (some pat))
+    (hws : wellTyped d.ctx.env d.ctx.cfg.sid.templates s)
+    (hw : wholeStar s.string) (hbs : '[' ∉ s.string) (hb : '[' ∉ pat)
+    (hfix : ∀ pc, d.ctx.cfg.pathConf? config = some pc → starFixed pc = true)
+    (hw_ents : HoldsExactly d w config s.type ents) :
+    ∃ found r, Find.starSearch d.ctx.env ⟨ents.map (·.string), false⟩ [s.string] = .ok found ∧
+      d.pathsStarSids w config [s] = .ok r ∧
+      r.Perm (ents.filter (fun e => decide (e.type = s.type) && found.contains e.string)) := by
+  obtain ⟨found, r, h1, h2, _, h4, h5⟩ :=
+    c11_paths_eq_list_whole d w config s pat ents hs hws hw hbs hb hfix hw_ents
+  refine ⟨found, r, h1, h2, (List.perm_ext_iff_of_nodup h4 (hnd.sublist List.filter_sublist)).2 ?_⟩
+  intro x
+  rw [h5, List.mem_filter]
+  simp
+
+/-- LOCAL = SERVER: two path configurations `c1`, `c2` and two trees `w1`, `w2` that hold the same
+    entities (each exactly, for its own configuration) answer a whole-segment star search with the
+    same set of Sids -/
+theorem c11_local_eq_server (w1 w2 : World) (c1 c2 : Option Str) (s : Sid) (pat1 pat2 : Str)
+    (ents : List Sid)
+    (hs1 : d.ctx.sidPath c1 s = .ok (some pat1)) (hs2 : d.ctx.sidPath c2 s = .ok (some pat2))
+    (hws : wellTyped d.ctx.env d.ctx.cfg.sid.templates s)
+    (hw : wholeStar s.string) (hbs : '[' ∉ s.string) (hb1 : '[' ∉ pat1) (hb2 : '[' ∉ pat2)
+    (hfix1 : ∀ pc, d.ctx.cfg.pathConf? c1 = some pc → starFixed pc = true)
+    (hfix2 : ∀ pc, d.ctx.cfg.pathConf? c2 = some pc → starFixed pc = true)
+    (he1 : HoldsExactly d w1 c1 s.type ents) (he2 : HoldsExactly d w2 c2 s.type ents) :
+    ∃ r1 r2, d.pathsStarSids w1 c1 [s] = .ok r1 ∧ d.pathsStarSids w2 c2 [s] = .ok r2 ∧
+      r1.Nodup ∧ r2.Nodup ∧ (∀ x, x ∈ r1 ↔ x ∈ r2) ∧ r1.Perm r2 := by
+  obtain ⟨f1, r1, hf1, hr1, _, hn1, hm1⟩ :=
+    c11_paths_eq_list_whole d w1 c1 s pat1 ents hs1 hws hw hbs hb1 hfix1 he1
+  obtain ⟨f2, r2, hf2, hr2, _, hn2, hm2⟩ :=
+    c11_paths_eq_list_whole d w2 c2 s pat2 ents hs2 hws hw hbs hb2 hfix2 he2
+  rw [hf1] at hf2
+  injection hf2 with hf2
+  subst hf2
+  have hm : ∀ x, x ∈ r1 ↔ x ∈ r2 := fun x => by rw [hm1, hm2]
+  exact ⟨r1, r2, hr1, hr2, hn1, hn2, hm, (List.perm_ext_iff_of_nodup hn1 hn2).2 hm⟩
 
 end C11
